@@ -31,6 +31,11 @@ CT = 'gaddlemaps/components/_components_top.py'
 
 # name: (property, file, old, new)
 MUTANTS = {
+ 'X04-match-ignores-resname': ('X04', CO, 'if atom.resname != at_top.resname or atom.name != at_top.name:', 'if atom.name != at_top.name:'),
+ 'X04-match-length-unchecked': ('X04', CO, 'if len(molecule_top) != sum(len(res) for res in residues):', 'if len(molecule_top) > sum(len(res) for res in residues):'),
+ 'X04-eq-ignores-name': ('X04', CO, '            molecule.name == self.name and\n', ''),
+ 'X04-eq-ignores-top-resid': ('X04', CO, '                         self.index == atom.index and\n                         self.top_resid == atom.top_resid)', '                         self.index == atom.index)'),
+ 'X04-table-one-direction': ('X04', CO, '                bond_info[index].append((index_to, distance))', '                if index_to > index:\n                    bond_info[index].append((index_to, distance))'),
  'X03-add-shares-atoms': ('X03', RES, 'return Residue(self.atoms + other.atoms)', 'return Residue(self._atoms_gro + other.atoms)'),
  'X03-add-atom-not-copied': ('X03', RES, 'return Residue(self.atoms + [other.copy()])', 'return Residue(self.atoms + [other])'),
  'X03-copy-shares': ('X03', RES, '        return Residue(self.atoms)\n', '        return Residue(self._atoms_gro)\n'),
